@@ -85,7 +85,9 @@ func (k *KVStore) SetConfig(c *storage.Config) {
 func (k *KVStore) makeTable() error {
 	if len(k.tables) != 0 {
 		head := k.tables[len(k.tables)-1]
-		head.SetState(table.ReadOnlyState)
+		if head.State() != table.RecycledState {
+			head.SetState(table.ReadOnlyState)
+		}
 
 		for i, t := range k.tables {
 			if t.State() == table.RecycledState {
@@ -191,13 +193,23 @@ func (k *KVStore) deleteSuperseded(hkey uint64) {
 	}
 }
 
+// hasWritableTable returns false if there is no table or the newest one is a recycled
+// table: the tables in front of it may all have been dropped by a transfer. A recycled
+// table has no coefficient, it must go through makeTable before it accepts writes again.
+func (k *KVStore) hasWritableTable() bool {
+	if len(k.tables) == 0 {
+		return false
+	}
+	return k.tables[len(k.tables)-1].State() != table.RecycledState
+}
+
 // PutRaw sets the raw value for the given key.
 func (k *KVStore) PutRaw(hkey uint64, value []byte) error {
 	if uint64(len(value)) >= k.tableSize {
 		return storage.ErrEntryTooLarge
 	}
 
-	if len(k.tables) == 0 {
+	if !k.hasWritableTable() {
 		if err := k.makeTable(); err != nil {
 			return err
 		}
@@ -232,7 +244,7 @@ func (k *KVStore) Put(hkey uint64, value storage.Entry) error {
 		return storage.ErrEntryTooLarge
 	}
 
-	if len(k.tables) == 0 {
+	if !k.hasWritableTable() {
 		if err := k.makeTable(); err != nil {
 			return err
 		}
